@@ -218,7 +218,15 @@ class VMModel:
         return self.mentions_lp_prefix(t, self.lp('stepping')) or self.mentions_lp_prefix(t, self.lp('enabled'))
 
     # ------------------------------------------------------------------ summaries
+    # the documented entry points that may get overloads: the one meant is told apart by its number of parameters
+    API_ARITY = {'setBreakPoint': 3}
+
     def method(self, name, rec='Theo::VM'):
+        c = self.facts.fns('%s::%s' % (rec, name))
+        if len(c) > 1 and name in self.API_ARITY:
+            c2 = [f for f in c if len(f.get('params', [])) == self.API_ARITY[name]]
+            if len(c2) == 1:
+                return c2[0]
         return self.facts.fn('%s::%s' % (rec, name))
 
     def paths(self, name, rec='Theo::VM', no_inline=()):
